@@ -39,8 +39,7 @@ fn memstr_least_offset() {
     }
 }
 
-// killed by: memstr `.windows(needle.len())` -> `.windows(1)` with `window[0] == needle[1]`-style match
-//            (mutation used: `position(|window| window[1] == needle[1])`: matches inside a character)
+// killed by: memstr `position(|window| window[1] == needle[1])` (sloppy comparison: matches inside a character)
 #[kani::proof]
 #[kani::unwind(8)]
 fn memstr_match_is_on_char_boundaries() {
